@@ -5,6 +5,7 @@
   (`make_refines_of_core`, `mem_playable_iff`), where the kernel can evaluate it.
 -/
 import ChessVerif.Proofs.EpTargetExamplesCaps
+import ChessVerif.Proofs.EpTargetExamplesCaps2
 import ChessVerif.Proofs.EpTargetUci
 
 namespace ChessVerif.EpTarget.Examples
